@@ -21,7 +21,7 @@ RULE = ("generated repositories: 3-12 commits over nested directories (names wit
         "notebooks. Non-trivial: >= 2 changed paths of which >= 1 notebook; distinct by hash of (repo, refs, cwd, filters).")
 FLOOR = {"quick": 150, "thorough": 3000}
 REQUIRED_MONITORS = ("pairs_vs_git", "cwd_restored", "cli_headers")
-ASSUMPTIONS = ["the git CLI is ground truth", "no git filters configured; autocrlf off; isolated HOME",
+ASSUMPTIONS = ["the git CLI is ground truth", "clean filters only of the sed kind configured by the harness (content-preserving apart from a token); autocrlf off; isolated HOME",
                "GitPython's default diff passes -M, so renames pair old with new content"]
 NSHARDS = 16
 DIRS = ["", "sub", "sub/deep dir", "sub/deep dir/δ", "other"]
@@ -47,6 +47,16 @@ class Repo:
             raise RuntimeError("git %r failed: %s" % (a, p.stderr.decode(errors="replace")[-200:]))
         return p.stdout.decode("utf8", "replace") if text else p.stdout
 
+    def cleaned(self, path, text):
+        """what git's clean filter makes of the work-tree file at path (root-relative), per git's own attribute lookup"""
+        if not getattr(self, "filter_pattern", None):
+            return text
+        out = self.git("check-attr", "filter", "--", path, text=True)
+        if out.strip().endswith(": strip"):
+            import re
+            return re.sub(r"SECRET_[0-9]*", "SECRET", text)
+        return text
+
     def tracked(self):
         out = self.git("ls-files", "-z").decode("utf8")
         return [x for x in out.split("\0") if x]
@@ -54,7 +64,7 @@ class Repo:
     def new_nb(self):
         self.n += 1
         nb = {"nbformat": 4, "nbformat_minor": 4, "metadata": {}, "cells": [
-            {"cell_type": "code", "metadata": {}, "source": "x = %d\nprint(x)" % self.n, "execution_count": None, "outputs": []},
+            {"cell_type": "code", "metadata": {}, "source": "x = %d\nprint(x)\ntoken = 'SECRET_%d'" % (self.n, self.n * 7), "execution_count": None, "outputs": []},
             {"cell_type": "markdown", "metadata": {}, "source": "note %d" % self.n}]}
         return json.dumps(nb, indent=1) + "\n"
 
@@ -120,6 +130,14 @@ class Repo:
         r = self.r
         self.git("init", "-q", "-b", "main")
         self.git("config", "core.autocrlf", "false")
+        # a clean filter (what nbstripout & co. install), attached to notebooks by a pattern that may be path-scoped:
+        # git - and nbdime, diffing against the working tree - compare the FILTERED content of the files on disk
+        self.filter_pattern = r.choice([None, None, "*.ipynb", "sub/*.ipynb", "/*.ipynb", "other/**", "sub/deep[[:space:]]dir/*.ipynb", "sub/**/*.ipynb"])
+        if self.filter_pattern:
+            self.git("config", "filter.strip.clean", "sed -e 's/SECRET_[0-9]*/SECRET/g'")
+            os.makedirs(os.path.join(self.root, ".git", "info"), exist_ok=True)
+            with open(os.path.join(self.root, ".git", "info", "attributes"), "w") as f:
+                f.write("%s filter=strip\n" % self.filter_pattern)
         for i in range(r.randrange(3, 13)):
             self.mutate_tree(r.randrange(1, 5))
             self.git("add", "-A")
@@ -179,7 +197,7 @@ def expected(repo, ra, rb, paths_from_root):
                 if not os.path.exists(full):
                     return None
                 with open(full, encoding="utf8") as f:
-                    return f.read()
+                    return repo.cleaned(path, f.read())
             spec = (":%s" % path) if ref == "INDEX" else "%s:%s" % (ref, path)
             return repo.git("show", spec).decode("utf8")
         a = None if status == "A" else content(ra, ap)
